@@ -540,6 +540,18 @@ pub fn c_group() -> Box<dyn Contract<Empty>> {
         cw4_group::contract::query,
     ))
 }
+/// a cw4 group that keeps no history: every query for a past height is answered with an error
+/// (a custom / migrated cw4 implementation). A multisig built on it has no snapshot to vote against.
+fn group_nohist_query(deps: Deps, env: Env, msg: cw4_group::msg::QueryMsg) -> StdResult<Binary> {
+    use cw4_group::msg::QueryMsg as Q;
+    match &msg {
+        Q::Member { at_height: Some(_), .. } | Q::TotalWeight { at_height: Some(_) } => Err(cosmwasm_std::StdError::generic_err("this group keeps no history")),
+        _ => cw4_group::contract::query(deps, env, msg),
+    }
+}
+pub fn c_group_nohist() -> Box<dyn Contract<Empty>> {
+    Box::new(ContractWrapper::new(cw4_group::contract::execute, cw4_group::contract::instantiate, group_nohist_query))
+}
 pub fn c_stake() -> Box<dyn Contract<Empty>> {
     Box::new(ContractWrapper::new(
         cw4_stake::contract::execute,
@@ -633,6 +645,7 @@ pub struct Codes {
     pub cw20: u64,
     pub cw20_flaky: u64,
     pub group: u64,
+    pub group_nohist: u64,
     pub stake: u64,
     pub fixed: u64,
     pub flex: u64,
@@ -677,6 +690,7 @@ impl Chain {
             cw20: app.store_code(c_cw20()),
             cw20_flaky: app.store_code(c_cw20_flaky()),
             group: app.store_code(c_group()),
+            group_nohist: app.store_code(c_group_nohist()),
             stake: app.store_code(c_stake()),
             fixed: app.store_code(c_fixed()),
             flex: app.store_code(c_flex()),
